@@ -273,7 +273,27 @@ bool Hist::opPrint() {
 
 // copy elements out of the object and edit the copies: the object must not change (C08 mirror, judged as observation only in disciplined mode)
 bool Hist::opCopyOut() {
-    if (prev.frames.empty()) return false;
+    if (prev.frames.empty() || rng.chance(25)) {
+        // copies of a parameter, a group and the whole parameter tree are edited: the object must not change (C09: every other parameter
+        // and group is unchanged; nothing the object holds may be shared with what it hands out by value)
+        std::vector<std::pair<size_t, size_t> > cand; for (size_t g = 0; g < prev.groups.size(); ++g) for (size_t q = 0; q < prev.groups[g].params.size(); ++q) if (!prev.groups[g].name.empty()) cand.push_back(std::make_pair(g, q));
+        if (cand.empty()) return false;
+        std::pair<size_t, size_t> c = cand[rng.below(cand.size())];
+        try {
+            Param pc(obj->parameters().group(c.first).parameter(c.second));
+            pc.name("EDITED_COPY"); pc.description("edited"); if (pc.isLocked()) pc.unlock(); else pc.lock();
+            if (pc.type() == ezc3d::INT) pc.set(std::vector<int>(2, -4242)); else if (pc.type() == ezc3d::FLOAT) pc.set(std::vector<float>(3, -42.5f)); else pc.set(std::vector<std::string>(2, "edited copy"));
+            ezc3d::ParametersNS::GroupNS::Group gc(obj->parameters().group(c.first));
+            gc.name("EDITED_GROUP"); gc.description("edited"); if (gc.isLocked()) gc.unlock(); else gc.lock(); gc.parameter(pc);
+            if (gc.nbParameters() > 0) { Param inner(gc.parameter(0)); inner.set(std::vector<int>(1, 7)); gc.parameter(inner); }
+            ezc3d::ParametersNS::Parameters tree(obj->parameters()); tree.group(gc);
+            if (tree.nbGroups() > 0 && tree.group(0).nbParameters() > 0) { Param q0(tree.group(0).parameter(0)); q0.description("edited in a copy of the tree"); tree.group_nonConst(0).parameter(q0); }
+        } catch (const std::exception&) { return false; }
+        Outcome none; log.ev("copy_params_out_and_edit", "group=" + std::to_string((unsigned long long)c.first) + " param=" + std::to_string((unsigned long long)c.second), none); bump("op:copy_params_out_and_edit");
+        Snap cur = take(*obj);
+        if (cur != prev) { std::vector<std::string> d = diff(prev, cur, 3); std::string all; for (size_t i = 0; i < d.size(); ++i) all += d[i] + "; "; log.viol("C09", "param/copy_aliases_object", "editing copies of a parameter, a group and the parameter tree changed the object: " + all); prev = cur; }
+        return true;
+    }
     size_t f = rng.below(prev.frames.size());
     if (rng.chance(50)) {
         // a COPY-CONSTRUCTED frame shares its payload with the stored one until add() replaces it: giving the copy new points/analogs of the
@@ -445,7 +465,7 @@ void Hist::run() {
     if (pf == "c06") { W["self"] = 8; W["rmw"] = 10; W["append"] = 25; W["replace"] = 18; W["extend"] = 12; W["pcol"] = 8; W["ccol"] = 8; W["param"] = 2; W["lookups"] = 1; }
     else if (pf == "c07") { W["second"] = 6; W["append"] = 25; W["replace"] = 10; W["extend"] = 6; W["pcol"] = 12; W["ccol"] = 12; W["decl_p"] = 12; W["decl_c"] = 10; W["param"] = 1; W["lookups"] = 0; W["rate_p"] = 8; W["rate_a"] = 8; }
     else if (pf == "c08") { W["refedit"] = 4; W["self"] = 8; W["rmw"] = 10; W["resubmit"] = 16; W["mutate"] = 18; W["pcol"] = 8; W["ccol"] = 8; W["copyout"] = 5; W["param"] = 1; W["lookups"] = 0; }
-    else if (pf == "c09") { W["rencopy"] = 10; W["selfp"] = 8; W["param"] = 40; W["pset"] = 25; W["lock"] = 15; W["append"] = 6; W["lookups"] = 2; W["rtc"] = 3; }
+    else if (pf == "c09") { W["copyout"] = 8; W["rencopy"] = 10; W["selfp"] = 8; W["param"] = 40; W["pset"] = 25; W["lock"] = 15; W["append"] = 6; W["lookups"] = 2; W["rtc"] = 3; }
     else if (pf == "c10") { W["manypts"] = 2; W["param"] = 14; W["pset"] = 6; W["lock"] = 6; W["pcol"] = 10; W["ccol"] = 10; }
     else if (pf == "c11") { W["lookups"] = 45; W["decl_p"] = 14; W["decl_c"] = 10; W["param"] = 10; }
     else if (pf == "c01") { W["refedit"] = 3; W["bulk"] = 1; W["rerate"] = 5; W["rencopy"] = 5; W["rt"] = 3; W["rtc"] = 3; W["param"] = 14; W["lookups"] = 1; }
